@@ -112,7 +112,21 @@ func parsePipeExpr(expr string) pipeExpr {
 
 	result := pipeExpr{
 		initial:  firstPart,
-		segments: make([]pipeSegment, 0, len(parts)-1),
+		segments: make([]pipeSegment, 0, len(parts)),
+	}
+
+	// A first part that is itself a function call, fn(args), is the first segment:
+	// it is called without a piped value and its result is piped on.
+	if strings.HasSuffix(firstPart, ")") {
+		if matches := filterRe.FindStringSubmatch(firstPart); matches != nil && helpers.IsIdentifier(matches[1]) {
+			result.initial = ""
+			result.segments = append(result.segments, pipeSegment{
+				typ:  segmentFilter,
+				expr: firstPart,
+				name: matches[1],
+				args: parseArgs(matches[2]),
+			})
+		}
 	}
 
 	for i := 1; i < len(parts); i++ {
